@@ -41,8 +41,17 @@ ScalarPred(t) ==
      D    |-> IF "D" \in Want THEN [v \in AllNames |-> DS(t, v)] ELSE <<>>,
      H    |-> IF "H" \in Want THEN [vw \in (TVars(t) \X TVars(t)) |-> H(t, vw[1], vw[2])] ELSE <<>>,
      nf   |-> IF "nf" \in Want THEN QNF(t) ELSE <<>>]
+\* what the nonlinear solver must be handed for one constraint "den sense 0":
+\* a function that is >= 0 (== 0 for equalities) exactly on the satisfied set, and its derivatives
+ScipyCon(cn) ==
+    LET f == IF cn.sense = "<=" THEN Neg(cn.den) ELSE cn.den IN
+    [type |-> IF cn.sense = "==" THEN "eq" ELSE "ineq", fun |-> f,
+     jac |-> [v \in AllNames |-> DS(f, v)], vars |-> TVars(cn.den)]
 Predict(o) ==
-    IF o.kind = "S" THEN ScalarPred(o.den) ELSE <<>>
+    IF o.kind = "S" THEN ScalarPred(o.den)
+    ELSE IF o.kind = "C" THEN <<ScipyCon([den |-> o.den, sense |-> o.sense])>>
+    ELSE IF o.kind = "CL" THEN [i \in 1..Len(o.cons) |-> ScipyCon(o.cons[i])]
+    ELSE <<>>
 
 Do(c) == /\ calls' = Append(calls, c)
          /\ heap'  = Append(heap, Apply(c, FH))
